@@ -12,6 +12,11 @@ def errName : Err → String
 def txt (b : Bytes) : Str := b.map fun x => Char.ofNat x.toNat
 def untxt (s : Str) : Bytes := s.map fun c => UInt8.ofNat c.toNat
 def jtxt (s : Str) : J := J.ofBytes (untxt s)
+/-- text arrives as the hex of its UTF-8 encoding and is handed to the model as code points, losslessly -/
+def utxt (b : Bytes) : Except String Str :=
+  match String.fromUTF8? (ByteArray.mk b.toArray) with
+  | some s => pure s.toList
+  | none => .error "text: invalid UTF-8"
 
 def exc (e : Err) : J := J.mk [("exc", J.str (errName e))]
 
@@ -58,14 +63,14 @@ def getVariant (j : J) : Except String Variant :=
     | [a, b, c, d] => pure { ip6 := a, eth := b, cidr := c, seq := d }
     | _ => .error "var: four booleans expected"
 
-def handle (j : J) : Except String J := do
+def handle1 (j : J) : Except String J := do
   let op ← j.string "op"
   let var ← getVariant j
   let p6 : Str → Except Err Bytes := if var.ip6 then parse6S else parse6
   let pc4 : Str → Bool → Bool → Except Err (IP4 × Nat) := if var.cidr then parseCidrS else parseCidr
   let pc6 : Str → Bool → Except Err (Bytes × Nat) := if var.cidr then parseCidr6SWith p6 else parseCidr6With p6
   match op with
-  | "ip4_text" => lift (IP4.ofText (txt (← j.bytes "t"))) fun x => pure (ip4View x)
+  | "ip4_text" => lift (IP4.ofText (← utxt (← j.bytes "t"))) fun x => pure (ip4View x)
   | "ip4_raw" => lift (IP4.ofRaw (← j.bytes "raw")) fun x => pure (ip4View x)
   | "ip4_int" => pure (ip4View (IP4.ofInt (← j.int "n") (← j.boolean "order")))
   | "ip4_cmp" =>
@@ -83,15 +88,15 @@ def handle (j : J) : Except String J := do
       | .error _ => .error "as: 4 raw bytes expected"
     lift (as.mapM fun a => inNetwork a n b) fun rs => pure (J.mk [("in", J.arr (rs.map J.bool))])
   | "ip4_innet_text" =>
-    lift (inNetworkTextWith pc4 (← getIP4 j "a") (txt (← j.bytes "net"))) fun r => pure (J.mk [("in", J.bool r)])
+    lift (inNetworkTextWith pc4 (← getIP4 j "a") (← utxt (← j.bytes "net"))) fun r => pure (J.mk [("in", J.bool r)])
   | "ip4_parse_cidr" =>
-    lift (pc4 (txt (← j.bytes "t")) (← j.boolean "infer") (← j.boolean "allow_host")) fun r =>
+    lift (pc4 (← utxt (← j.bytes "t")) (← j.boolean "infer") (← j.boolean "allow_host")) fun r =>
       pure (netJ (fun (x : IP4) => J.ofBytes x.raw) r)
   | "ip4_getnet" =>
-    lift (getNetworkWith pc4 (← getIP4 j "a") (txt (← j.bytes "arg"))) fun r => pure (netJ (fun (x : IP4) => J.ofBytes x.raw) r)
+    lift (getNetworkWith pc4 (← getIP4 j "a") (← utxt (← j.bytes "arg"))) fun r => pure (netJ (fun (x : IP4) => J.ofBytes x.raw) r)
   | "ip4_infer" => pure (J.mk [("bits", J.ofNat (inferNetmask (← getIP4 j "a")))])
   | "ip6_text" =>
-    lift (p6 (txt (← j.bytes "t"))) fun a => pure (J.mk [("raw", J.ofBytes a), ("str", jtxt (str6 a))])
+    lift (p6 (← utxt (← j.bytes "t"))) fun a => pure (J.mk [("raw", J.ofBytes a), ("str", jtxt (str6 a))])
   | "ip6_str" =>
     let a ← get16 j "raw"
     let opts : List (Bool × Bool × Option Bool) :=
@@ -109,9 +114,9 @@ def handle (j : J) : Except String J := do
       if a.length = 16 then pure a else .error "as: 16 raw bytes expected"
     lift (as.mapM fun a => inNetwork6 a n b) fun rs => pure (J.mk [("in", J.arr (rs.map J.bool))])
   | "ip6_innet_text" =>
-    lift (inNetwork6TextWith pc6 (← get16 j "a") (txt (← j.bytes "net"))) fun r => pure (J.mk [("in", J.bool r)])
+    lift (inNetwork6TextWith pc6 (← get16 j "a") (← utxt (← j.bytes "net"))) fun r => pure (J.mk [("in", J.bool r)])
   | "ip6_parse_cidr" =>
-    lift (pc6 (txt (← j.bytes "t")) (← j.boolean "allow_host")) fun r => pure (netJ J.ofBytes r)
+    lift (pc6 (← utxt (← j.bytes "t")) (← j.boolean "allow_host")) fun r => pure (netJ J.ofBytes r)
   | "bytes_cmp" =>
     let a ← j.bytes "a"; let b ← j.bytes "b"
     pure (J.mk [("eq", J.bool (a == b)), ("lt", J.bool (bytesLt a b)), ("gt", J.bool (bytesLt b a))])
@@ -123,8 +128,20 @@ def handle (j : J) : Except String J := do
   | "dpid_str" =>
     lift (dpidToStr (← j.nat "d") (← j.boolean "long")) fun s =>
       lift (strToDpid s) fun d => pure (J.mk [("str", jtxt s), ("back", J.ofNat d)])
-  | "dpid_parse" => lift (strToDpid (txt (← j.bytes "t"))) fun d => pure (J.mk [("d", J.ofNat d)])
-  | "int" => lift (pyInt (← j.nat "base") (txt (← j.bytes "t"))) fun v => pure (J.mk [("v", J.num v)])
+  | "dpid_parse" => lift (strToDpid (← utxt (← j.bytes "t"))) fun d => pure (J.mk [("d", J.ofNat d)])
+  | "int" => lift (pyInt (← j.nat "base") (← utxt (← j.bytes "t"))) fun v => pure (J.mk [("v", J.num v)])
   | _ => .error s!"unknown op {op}"
+
+/-- `{"op":"calls","calls":[…]}`: a sequence of calls made one after the other in the same Python process.  The model is a
+    set of pure functions, so each call is answered on its own — which is the point of the comparison: in the real code
+    no result may depend on what was called before. -/
+def handle (j : J) : Except String J := do
+  match j.get? "calls" with
+  | some cs => do
+    let rs ← (← cs.asArr).mapM fun c => pure (match handle1 c with
+      | .ok r => r
+      | .error e => J.mk [("error", J.str e)])
+    pure (J.mk [("results", J.arr rs)])
+  | none => handle1 j
 
 def main : IO Unit := serve handle
